@@ -129,7 +129,7 @@ def eu_lfp_schema(c):
     k = c.kripke.t
     p = kid0(f)
     Z = z3.Const('Z!lfp', hp.SetH)
-    s, d = X('s'), X('d')
+    s, d = z3.Const('s!lfp', H), z3.Const('d!lfp', H)     # fixed names: the schema is compared syntactically
     closed = z3.And(z3.ForAll([s], z3.Implies(sat(kid1(p))[s], Z[s])),
                     z3.ForAll([s, d], z3.Implies(z3.And(sat(kid0(p))[s], edge(c.h0, k, s, d), Z[d]), Z[s])))
     return z3.ForAll([Z], z3.Implies(closed, z3.ForAll([s], z3.Implies(sat(f)[s], Z[s]))))
@@ -286,6 +286,7 @@ def install(E):
         he = lc.h_entry
         L = c.L.t
         s, a, b = X('s'), X('a'), X('b')
+        g_ = z3.Const('g!eu', F)
         ownL = lambda r: r == L        # noqa
         return [
             ('phi0', z3.ForAll([s], P0[s] == sat(kid0(p))[s])),
@@ -302,7 +303,10 @@ def install(E):
             ('edges_phi0', hp.FA([a, b], z3.Implies(z3.And(P0[a], P0[b], edge(c.h0, k, b, a)), edge(h, sg, a, b)),
                                  [succ(c.h0, k, b)[a], succ(h, sg, a)[b]])),
             ('memo_inv', memo_inv(h, L)),
-            ('memo_has_no_formula_yet', z3.BoolVal(True)),
+            # the memo table's sets were all allocated before the subgraph (its dict and successor sets)
+            ('memo_below_subgraph', z3.ForAll([g_], z3.Implies(h.fdom(L)[g_], h.fval(L)[g_] < nx(h, sg)))),
+            ('subgraph_sets_above_dict', z3.ForAll([s], z3.Implies(V(h, sg)[s], sref(h, sg, s) > nx(h, sg)))),
+            ('operands_below_subgraph', z3.And(lc.env['Lphi'].x[0].t < nx(h, sg), lc.env['Lphi'].x[1].t < nx(h, sg))),
             ('alloc', h.alloc >= he.alloc),
         ] + [('since_entry:' + n_, f_) for n_, f_ in memo_grows(c.h0, h, L)] \
           + frame(c.h0, h, c.h0.alloc, {'fd': ownL, 'fv': ownL}) \
@@ -328,6 +332,9 @@ def install(E):
             ('current', z3.And(P0[cur], V(c.h0, k)[cur])),
             ('iterated_is_next_and_phi1', z3.ForAll([w], lc.coll.mem[w] == z3.And(edge(c.h0, k, cur, w), P1[w]))),
             ('current_so_far', z3.ForAll([w], z3.Implies(lc.seen[w], edge(h, sg, w, cur)))),
+            ('iterated_set_is_not_a_subgraph_set', z3.And(
+                lc.coll.src[1] > nx(h, sg),
+                z3.ForAll([w], z3.Implies(V(h, sg)[w], sref(h, sg, w) != lc.coll.src[1])))),
         ]
 
     def eu_l4(lc):
@@ -342,6 +349,20 @@ def install(E):
             ('iterated_is_missing_phi1', z3.ForAll([s], lc.coll.mem[s] == z3.And(P1[s], z3.Not(V(he, sg)[s])))),
         ]
 
+    def eu_cut_lfp_instance(c, path):
+        # forall-elimination of the (assumed) least-fixpoint principle at Z := the returned set
+        return eu_lfp_schema(c), [c.h1.set_of(c.res.t)]
+
+    def eu_cut_sound(c, path):
+        s = X('s')
+        R = c.h1.set_of(c.res.t)
+        return z3.ForAll([s], z3.Implies(R[s], sat(c.formula.t)[s]), patterns=[R[s]])
+
+    def eu_cut_complete(c, path):
+        s = X('s')
+        R = c.h1.set_of(c.res.t)
+        return z3.ForAll([s], z3.Implies(sat(c.formula.t)[s], R[s]), patterns=[sat(c.formula.t)[s]])
+
     def eu_reach_hint(cc, c, path):
         # instance of `least` of get_reachable_set_from at Z := sat(formula)
         return [reach_least_instance(c, sat(cc.formula.t))]
@@ -353,7 +374,9 @@ def install(E):
         ensures=common_ensures, frame=memo_frame, may_write=memo_may_write,
         touches=TOUCH, loop_touches={2: {'dd', 'dv', 'sets'}, 3: {'dd', 'dv', 'sets'}, 4: {'dd', 'dv', 'sets'}},
         loops={2: eu_l2, 3: eu_l3, 4: eu_l4},
-        hints={'call': {'DiGraph.get_reachable_set_from': eu_reach_hint}}, owner='C01'))
+        hints={'call': {'DiGraph.get_reachable_set_from': eu_reach_hint},
+               'cuts': {'ensures:result_is_sat': [eu_cut_lfp_instance, eu_cut_sound, eu_cut_complete],
+                        'ensures:memo_inv': [eu_cut_lfp_instance, eu_cut_sound, eu_cut_complete]}}, owner='C01'))
     reg(Contract(
         '_checkEG', 'ctl', PARAMS, ret='set',
         requires=lambda c: common_requires(c, lambda f: z3.And(is_tag(f, 'E'), is_tag(kid0(f), 'G'))),
